@@ -43,4 +43,20 @@ Section LabelMatrix.
       assert (Hn : 0 < INR n) by (apply lt_0_INR; exact Hpos).
       rewrite <- Rinv_mult. rewrite sqrt_sqrt by lra. apply Rinv_r. lra.
   Qed.
+
+  (** the constant-entry form used for C_trans: when every fibre has the same size n, entries 1/sqrt(n) *)
+  Definition entry_const (n : nat) (e : A) (c : nat) : R := if has c e then / sqrt (INR n) else 0.
+
+  Theorem uniform_columns_unit E n c : count E c = n -> (0 < n)%nat -> rsuml (fun e => entry_const n e c * entry_const n e c) E = 1.
+  Proof.
+    intros Hc Hn. rewrite <- (column_unit_norm E c) by (rewrite Hc; exact Hn).
+    unfold entry_const, entry. rewrite Hc. reflexivity.
+  Qed.
+
+  Theorem uniform_columns_orthogonal E n c c' : c <> c' -> rsuml (fun e => entry_const n e c * entry_const n e c') E = 0.
+  Proof.
+    intros Hne. unfold entry_const.
+    induction E as [|e l IH]; cbn [rsuml]; [reflexivity|]. rewrite IH. pose proof (has_two c c' e Hne) as H2.
+    destruct (has c e), (has c' e); cbn in H2; try discriminate; lra.
+  Qed.
 End LabelMatrix.
